@@ -149,5 +149,6 @@ def run(ck, ctx):
         g = dict(shape.edge_conds(lb, both[0]))
         ck.ob("C20.4", "merge-when-both", g.get("discr(arg2.sym)") == ("1",) and any(k.endswith(".sym)") and v == ("1",) and k != "discr(arg2.sym)" for k, v in g.items()),
               "the label loop runs when both files carry a symbol table: %s" % {k: v for k, v in g.items() if ".sym)" in k}, where)
+    ck.include("C23", ctx, "C20.5", {"C23.1", "C23.2"}, "labels of the two files meet under one key discipline")
     ck.assume("order-independence over link histories (the result of linking in every order and bracketing) is not decided; the clauses above are per link")
     ck.assume("block ranges of assembler output end <= xFE00 (C02); files from disk are C19's concern")
